@@ -68,6 +68,14 @@ class Pair(object):
         self.s = sim.endpoint(names[1], link.ssock, snode)
         self.cset = make_settings(scen.get("cset"))
         self.sset = make_settings(scen.get("sset"))
+        if scen.get("alt_skeys"):
+            # additional server key pairs (dual-certificate deployment)
+            from tlslite.handshakesettings import VirtualHost, Keypair
+            vh = VirtualHost()
+            for kn in scen["alt_skeys"]:
+                chain, key = creds.load("server", kn)
+                vh.keys.append(Keypair(key, chain.x509List))
+            self.sset.virtual_hosts = [vh]
 
     # -- handshake ops ------------------------------------------------------
     def client_gen(self, session=None):
